@@ -143,6 +143,14 @@ class FullLib(Lib):
 
     def mktemp(self, it, dirp):
         if dirp.anchor not in TMP_KIND or dirp.parts:
+            if isinstance(dirp, VPath) and dirp.anchor in (A_OBJECTS, A_METADATA, A_CIDS, A_PIDS, A_REFS,
+                                                          A_ROOT):
+                # a temporary (half-written, unlocked, arbitrarily named) file inside a permanent
+                # directory is visible to every listing and lookup of that directory
+                it.ctx.fail("fs/temporary-files-only-in-tmp-areas",
+                            f"a temporary file is created in the permanent directory {dirp}: the "
+                            "delete-all listing and the layout see a half-written file that no "
+                            "document lock protects", props=("C09", "C12", "C15"))
             raise Undecided(f"NamedTemporaryFile in {dirp}")
         area = TMP_KIND[dirp.anchor]
         self.maybe_fault(it, "mktemp", z3.IntVal(area))
